@@ -123,6 +123,7 @@ def run_part(ck):
             ck.case((lay.key(), "wipe", str(ok)), ok is True, "t4:wipe:%s" % (ok if not isinstance(ok, str) else ok[:30]))
     T.compare(ck, model, jobs, "t34-write-commands-model-vs-nfcpy")
     t3_format_part(ck, model)
+    sequences_t34(ck)
 
 
 def t3_format_part(ck, model):
@@ -200,3 +201,271 @@ def t3_format_part(ck, model):
         if line2 != "ok cap=%d r=1 w=1 data=-" % (16 * (nblocks - 1)):
             ck.fail("t3-format-result-not-empty-ndef", "fresh activation after format: %s" % line2[:80], replay)
     T.compare(ck, model, jobs, "t3-format-model-vs-nfcpy")
+
+
+# ====================================================================== sequences on ONE tag object
+class _T3(object):
+    """Type 3 Tag behind T3Sim: memory = blocks of 16 octets; NDEF area = attribute block + data blocks"""
+    name = "Type3Tag"
+
+    def __init__(self, rng):
+        lay = next(iter(T.gen_t3(rng, 1, False, big=False)))
+        self.extra = rng.choice([0, 2])
+        self.lay = T.L3(lay.nbr, lay.nbw, lay.nmaxb, lay.old, T.rbytes(rng, 16 * (lay.nmaxb + 1 + self.extra), 1), extra_blocks=self.extra)
+        self.nmaxb = lay.nmaxb
+        self.phys = lay.nmaxb + 1 + self.extra
+        self.ops = ["r", "w", "w", "f", "fw", "fv"]
+
+    def fresh(self, mem):
+        sim = T.T3Sim(mem, self.lay.nbr, self.lay.nbw)
+        return sim, sim.activate()
+
+    def initial(self):
+        return self.lay.mem
+
+    def snap(self, sim):
+        return bytes(sim.mem)
+
+    def take(self, sim):
+        w = [(tuple(bl), bytes(d)) for bl, d in sim.writes]
+        del sim.writes[:]
+        return w
+
+    def cap(self):
+        return self.nmaxb * 16
+
+    def allowed(self, op, before):
+        """octet addresses that may change, block numbers that may be addressed"""
+        if op[0] == "w":
+            nb = (len(op[1]) + 15) // 16
+            return set([9, 10]) | set(range(11, 16)) | set(range(16, 16 + 16 * nb)), set(range(0, nb + 1))
+        if op[0] == "f":
+            if op[1] is not None and op[1] >> 4 != 1:
+                return set(), set()
+            blocks = set(range(0, self.phys)) if op[2] is not None else {0}
+            return set(a for b in blocks for a in range(16 * b, 16 * b + 16)), blocks
+        return set(), set()
+
+    def blocks_of(self, w):
+        return set(w[0])
+
+    def after(self, op, out):
+        if op[0] == "f" and out == "true":
+            self.nmaxb = self.phys - 1       # format() measures the tag: every block that answers belongs to the area
+
+
+class _T4(object):
+    name = "Type4Tag"
+
+    def __init__(self, rng):
+        lay = next(iter(T.gen_t4(rng, 1, False, big=False)))
+        self.lay = T.L4(lay.ver, lay.tag, lay.mle, lay.mlc, lay.mfs, lay.old, T.rbytes(rng, lay.mfs + 8, 1), extra=8)
+        self.ops = ["r", "w", "w", "f", "fw"]
+
+    def fresh(self, mem):
+        sim = self.lay.sim(file=mem)
+        return sim, sim.activate()
+
+    def initial(self):
+        return self.lay.file
+
+    def snap(self, sim):
+        return bytes(sim.file)
+
+    def take(self, sim):
+        w = [(bytes(fid), off, bytes(d)) for fid, off, d in sim.writes]
+        del sim.writes[:]
+        return w
+
+    def cap(self):
+        return self.lay.cap
+
+    def allowed(self, op, before):
+        if op[0] == "w":
+            return set(range(0, self.lay.nl + len(op[1]))), None
+        if op[0] == "f":
+            return (set(range(0, self.lay.mfs)) if op[2] is not None else set()), None
+        return set(), None
+
+    def cmd_ok(self, w, allowed):
+        fid, off, d = w
+        return fid == self.lay.fid and all(a in allowed for a in range(off, off + len(d)))
+
+    def after(self, op, out):
+        pass
+
+
+class _Lite(object):
+    """FeliCa Lite / Lite-S (sims/auth_felica.LiteTag): user blocks 0..13, REG 14, system blocks 80h.."""
+
+    def __init__(self, rng, lite_s):
+        from sims import auth_felica as F
+        self.F, self.lite_s = F, lite_s
+        self.name = "FelicaLiteS" if lite_s else "FelicaLite"
+        t = F.LiteTag(lite_s=lite_s)
+        for n in range(15):
+            t.b[n] = bytearray(T.rbytes(rng, 16, 1))
+        F.store_ndef(t.b, T.rbytes(rng, rng.choice([0, 5, 40, 100]), 1))
+        self.b0 = {k: bytes(v) for k, v in t.b.items()}
+        self.ops = ["r", "w", "w", "f", "fw", "p14", "a"]
+        self.authenticated = False
+
+    def fresh(self, mem):
+        t = self.F.LiteTag(lite_s=self.lite_s)
+        t.b = {k: bytearray(v) for k, v in dict(mem).items()}
+        air, tag = self.F.activate(t)
+        return t, tag
+
+    def initial(self):
+        return tuple(sorted(self.b0.items()))
+
+    def snap(self, sim):
+        return tuple(sorted((k, bytes(v)) for k, v in sim.b.items()))
+
+    def take(self, sim):
+        w = [(n, bytes(d)) for n, d in sim.log]
+        del sim.log[:]
+        return w
+
+    def cap(self):
+        return 13 * 16
+
+    def allowed(self, op, before):
+        if op[0] == "w":
+            return set(range(0, (len(op[1]) + 15) // 16 + 1)), None
+        if op[0] == "f":
+            return {0x88, 0} | (set(range(1, 14)) if op[2] is not None else set()), None
+        if op[0] == "p":
+            return {0x88, 0}, None
+        if op[0] == "a":
+            return {0x80, 0x92}, None
+        return set(), None
+
+    def after(self, op, out):
+        if op[0] == "a" and out == "true":
+            self.authenticated = True
+
+
+def _do_op(tag, op):
+    try:
+        if op[0] == "r":
+            nd = tag.ndef
+            if nd is None:
+                return "false"
+            bytes(nd.octets)
+            return "true"
+        if op[0] == "w":
+            nd = tag.ndef
+            if nd is None:
+                return "false"
+            nd.octets = op[1]
+            return "true"
+        if op[0] == "f":
+            r = tag.format(wipe=op[2]) if op[1] is None else tag.format(version=op[1], wipe=op[2])
+        elif op[0] == "p":
+            r = tag.protect(protect_from=op[1])
+        else:
+            r = tag.authenticate(b"")
+        return "true" if r is True else "false" if r is False else "none"
+    except Exception as e:  # noqa
+        return "exc " + exc_name(e)
+
+
+def sequences_t34(ck):
+    """2..4 application calls on ONE Type 3 / FeliCa Lite / Lite-S / Type 4 tag object, judged after every call: what
+    changed and what was addressed against the NDEF area of the layout that is on the tag at that moment, and the call
+    against the same call on a fresh object activated on the same memory (cached object state must not show)."""
+    import contextlib
+    import io
+    import itertools
+    from common import INTERNAL
+    rng = ck.rng
+    makers = [("t3", lambda: _T3(rng)), ("t4", lambda: _T4(rng)), ("lite", lambda: _Lite(rng, False)), ("lites", lambda: _Lite(rng, True))]
+    n_rand = 150 if ck.thorough else 22
+    for kname, make in makers:
+        alphabet = make().ops
+        every = []
+        for n in (2, 3, 4):
+            every += list(itertools.product(sorted(set(alphabet)), repeat=n))
+        pool = [q for q in every if len(q) == 2] + [rng.choice(every) for _ in range(n_rand)]
+        pool += [("r", "f", "w"), ("r", "fw", "w"), ("w", "f", "w"), ("r", "f", "r", "w"), ("f", "w", "w")]
+        if ck.thorough:
+            pool += [q for q in every if len(q) == 3]
+        for shape in pool:
+            A = make()
+            replay = {"op": "sequence", "class": A.name, "steps": [], "layout": getattr(getattr(A, "lay", None), "descr", lambda: {})()}
+            try:
+                sim, tag = A.fresh(A.initial())
+                A.take(sim)
+            except Exception as e:  # noqa
+                ck.fail("t34-unexpected-exception", "%s: activation raised %s: %s" % (A.name, exc_name(e), e), replay)
+                continue
+            outs = []
+            for x in shape:
+                cap = A.cap()
+                if x == "w":
+                    n = max(1, min(max(cap, 1), rng.choice([cap, cap, cap - 1, 1, 16, 17, rng.randrange(0, cap + 1)])))
+                    op = ("w", T.rbytes(rng, n, 1))
+                    descr = "write %d octets" % n
+                elif x in ("f", "fw", "fv"):
+                    op = ("f", rng.choice([0x10, 0x11, 0x20]) if x == "fv" else None, rng.randrange(256) if x == "fw" else None)
+                    descr = "format(version=%r, wipe=%r)" % (op[1], op[2])
+                elif x == "p14":
+                    op = ("p", 14)
+                    descr = "protect(protect_from=14)"
+                elif x == "a":
+                    op = ("a",)
+                    descr = "authenticate(b'')"
+                else:
+                    op = ("r",)
+                    descr = "read ndef"
+                replay["steps"].append(descr + ("" if op[0] != "w" else " " + op[1].hex()))
+                before = A.snap(sim)
+                try:
+                    with contextlib.redirect_stdout(io.StringIO()):
+                        out = _do_op(tag, op)
+                        cmds = A.take(sim)
+                        after = A.snap(sim)
+                        fsim, ftag = A.fresh(before)
+                        A.take(fsim)
+                        fout = _do_op(ftag, op)
+                        fcmds, fafter = A.take(fsim), A.snap(fsim)
+                except Exception as e:  # noqa
+                    ck.fail("t34-unexpected-exception", "%s: %s raised %s: %s" % (A.name, descr, exc_name(e), e), replay)
+                    break
+                outs.append(out)
+                what = "%s, step %d of [%s]: %s" % (A.name, len(outs), "; ".join(replay["steps"]), descr)
+                if out.startswith("exc") and out[4:] in INTERNAL and not (out == "exc ValueError" and op[0] == "w" and len(op[1]) > cap):
+                    ck.fail("t34-sequence-unexpected-exception", "%s ended with %s" % (what, out), replay)
+                authenticated = getattr(A, "authenticated", False)
+                if not authenticated and op[0] != "a":
+                    same = (out, cmds) == (fout, fcmds)
+                    if isinstance(after, tuple):
+                        same = same and dict(after) == dict(fafter)
+                    else:
+                        same = same and after == fafter
+                    if not same:
+                        ck.fail("t34-sequence-stale-object-state", "%s behaves differently on the used tag object than on a fresh one "
+                                "activated on the same memory: used %s %s, fresh %s %s" % (what, out, str(cmds)[:120], fout, str(fcmds)[:120]), replay)
+                allowed, blocks = A.allowed(op, before)
+                if isinstance(before, tuple):      # FeliCa Lite: block granular; WCNT (90h) counts every write by itself
+                    b0, b1 = dict(before), dict(after)
+                    bad = sorted(k for k in b0 if b0[k] != b1[k] and k not in allowed and k != 0x90)
+                    badcmd = [w for w in cmds if w[0] not in allowed]
+                else:
+                    bad = [a for a in range(len(before)) if before[a] != after[a] and a not in allowed]
+                    if blocks is not None:
+                        badcmd = [w for w in cmds if not (A.blocks_of(w) <= blocks)]
+                    else:
+                        badcmd = [w for w in cmds if not A.cmd_ok(w, allowed)]
+                if bad:
+                    ck.fail("t34-sequence-outside-area", "%s changed %s %s, outside the NDEF area of the layout that is on the tag now"
+                            % (what, "blocks" if isinstance(before, tuple) else "octets", bad[:8]), replay)
+                if badcmd:
+                    ck.fail("t34-sequence-command-outside-area", "%s sent %s, outside what this step may address" % (what, str(badcmd[0])[:100]), replay)
+                if op[0] == "w" and out != "true" and len(op[1]) <= cap:
+                    ck.fail("t34-sequence-write-fails", "%s ended with %s (capacity %d)" % (what, out, cap), replay)
+                A.after(op, out)
+                if out.startswith("exc TagCommandError"):
+                    break
+            ck.case(("sequence", A.name, str(A.initial())[:200], tuple(replay["steps"])), True, "sequence:%s:len%d" % (A.name, len(shape)))
